@@ -343,6 +343,18 @@ def check_strip_comments(ctx, T):
         kw = {k.arg: folder.try_eval(k.value, gnc.mod) for k in r.keywords}
         okl = okl and isinstance(r, ast.Call) and r.func.attr == 'token_next_by' and kw.get('t') == TT(('Comment',)) \
             and getattr(kw.get('i'), 'cls', None) is not None and kw['i'].cls.name == 'Comment' and 'm' not in kw
+    # (f) bottom-up traversal: sub-groups (e.g. a Comment group [ordinary comment, hint]) are stripped before the group itself is judged
+    pr = c.methods['process']
+    order = []
+    for n in own_nodes(pr.node):
+        if isinstance(n, ast.Call) and is_attr(n.func, 'process', 'self'):
+            order.append(('recurse', n.lineno, n.col_offset))
+        if isinstance(n, ast.Call) and isinstance(n.func, ast.Attribute) and n.func.attr == '_process':
+            order.append(('self', n.lineno, n.col_offset))
+    order.sort(key=lambda x: (x[1], x[2]))
+    kinds = [k for k, _, _ in order]
+    ctx.ob('R8.3', 'f:bottom-up', f'{pr.mod.relpath}:{pr.node.lineno}', 'process() strips the sub-groups first and the group itself afterwards', kinds == ['recurse', 'self'],
+           f'order of calls in process(): {kinds}: a Comment group is judged by its first token before its own non-hint comments are removed, so a hint that follows an ordinary comment is stripped with it')
     ctx.ob('R8.3', 'a:lookup', f'{f.mod.relpath}:{f.node.lineno}', 'the lookup selects exactly T.Comment leaves and sql.Comment groups', okl, '')
 
 
